@@ -452,35 +452,40 @@ theorem finalize_shape (p2 : Pop W) : ∀ s' ∈ (finalizeReproduction p2).speci
   obtain ⟨j, hj⟩ := List.getElem?_of_mem hs2
   exact ⟨j, s2, k, hj, hid, ho⟩
 
-/-- how organism `x` of species `s'` of the new generation got there: it is baby `b` (genome id renumbered by the final
-    purge) with log entry `(q, b)`, and either
-    * FOUNDER: no species was chosen at `q`; `s'` carries the fresh id `q.lastSpecies + 1`, above the `LastSpecies` the
-      turnover started with, and `x` is still the first organism of `s'`; or
-    * JOINED: the search chose position `i` of `q.species`, holding the species with the id of `s'`, whose first organism
-      at that moment, `rep`, was within the threshold; and `rep` is
-        - an OLD-GENERATION organism: the first organism of the species at the same position `i` of the prepared
-          population `p1`, listed in `p1.organisms` (what `purgeOldGeneration` removes afterwards), or
-        - the FOUNDER baby of `s'` (a species founded during this turnover, beyond the old list), which is still the first
-          organism of `s'` (genome id renumbered). -/
-def PlacedInEpoch (o : EpochOpts W) (p p1 : Pop W) (babies : List (Org W)) (log : List (Pop W × Org W))
-    (s' : Species W) (x : Org W) : Prop :=
+/-- baby `b` (log entry `(q, b)`) is organism `x` of the new generation (genome id renumbered by the final purge); at its
+    arrival the search chose position `i` of `q.species`, holding the species with id `sid`, whose first organism at that
+    moment, `rep`, was within the threshold -/
+def JoinedE (o : EpochOpts W) (babies : List (Org W)) (log : List (Pop W × Org W)) (sid : Int) (i : Nat) (rep x : Org W) : Prop :=
   ∃ q b, (q, b) ∈ log ∧ b ∈ babies ∧ x = { b with genome := { b.genome with id := x.genome.id } } ∧
-    ((placeTarget o q b = none ∧ s'.id = q.lastSpecies + 1 ∧ p.lastSpecies < s'.id ∧ s'.orgs.head? = some x) ∨
-     (∃ i sq rep, placeTarget o q b = some i ∧ q.species[i]? = some sq ∧ sq.id = s'.id ∧ sq.orgs.head? = some rep ∧
-        lt (compatibility o.compat b.genome rep.genome) o.compatThreshold = true ∧
-        ((∃ s1, p1.species[i]? = some s1 ∧ s1.id = s'.id ∧ s1.orgs.head? = some rep ∧ rep.uid ∈ p1.organisms) ∨
-         (p.lastSpecies < s'.id ∧ rep ∈ babies ∧ p1.species.length ≤ i ∧
-           ∃ x0, s'.orgs.head? = some x0 ∧ x0 = { rep with genome := { rep.genome with id := x0.genome.id } }))))
+    placeTarget o q b = some i ∧ ∃ sq, q.species[i]? = some sq ∧ sq.id = sid ∧ sq.orgs.head? = some rep ∧
+    lt (compatibility o.compat b.genome rep.genome) o.compatThreshold = true
 
-/-- **C08 over the epoch, (b).**  Let `p` be a consistently allocated population (`UidInv`) with unique species ids and let
-    the turnover run through the stages `st` (`nextEpoch_speciates_babies` provides them whenever `nextEpoch` returns).
-    Then EVERY organism of EVERY species of the new population was placed as `PlacedInEpoch` says.  For every scalar type,
-    stream, registry and option setting. -/
-theorem nextEpoch_placed (o : EpochOpts W) (gen : Int) (p p' p1 p2 : Pop W) (ex : ExecState) (rs rs1 rs' : List Nat)
+/-- baby `f` (log entry `(q, f)`) found no species at its arrival and founded the species with the fresh id `sid` -/
+def FounderE (o : EpochOpts W) (babies : List (Org W)) (log : List (Pop W × Org W)) (sid : Int) (f : Org W) : Prop :=
+  ∃ q, (q, f) ∈ log ∧ f ∈ babies ∧ placeTarget o q f = none ∧ sid = q.lastSpecies + 1
+
+/-- **C08 over the epoch, (b), species by species.**  Let `p` be a consistently allocated population (`UidInv`) with unique
+    species ids and let the turnover run through the stages `st` (`nextEpoch_speciates_babies` provides them whenever
+    `nextEpoch` returns).  Then every species `s'` of the new population is
+    * a SURVIVOR: the species at some position `i` of the prepared population `p1` has the same id; its first organism
+      `rep` is an old-generation organism (listed in `p1.organisms`, which `purgeOldGeneration` removes only afterwards), and
+      EVERY organism of `s'` is a baby that joined position `i` when `rep` was the representative there and within the
+      threshold; or
+    * FOUNDED during this turnover, with an id above the `LastSpecies` the turnover started with and a position beyond the old
+      list: its first organism is the founder baby `f` (no species was chosen at `f`'s arrival; fresh id
+      `lastSpecies + 1` of that moment), and every other organism is a baby that joined that position when `f` was the
+      representative and within the threshold.
+    For every scalar type, stream, registry and option setting. -/
+theorem nextEpoch_species_placed (o : EpochOpts W) (gen : Int) (p p' p1 p2 : Pop W) (ex : ExecState) (rs rs1 rs' : List Nat)
     (babies : List (Org W)) (reg : Reg W) (uid : Nat) (log : List (Pop W × Org W))
     (hu : C02.UidInv p) (hnd : (p.species.map (·.id)).Nodup)
     (st : Stages o gen p rs p1 ex rs1 babies reg uid p2 log p' rs') :
-    ∀ s' ∈ p'.species, ∀ x ∈ s'.orgs, PlacedInEpoch o p p1 babies log s' x := by
+    ∀ s' ∈ p'.species,
+      (∃ i s1 rep, p1.species[i]? = some s1 ∧ s1.id = s'.id ∧ s1.orgs.head? = some rep ∧ rep.uid ∈ p1.organisms ∧
+        ∀ x ∈ s'.orgs, JoinedE o babies log s'.id i rep x) ∨
+      (p.lastSpecies < s'.id ∧ ∃ i f x0 t', p1.species.length ≤ i ∧ s'.orgs = x0 :: t' ∧
+        x0 = { f with genome := { f.genome with id := x0.genome.id } } ∧ FounderE o babies log s'.id f ∧
+        ∀ x ∈ t', JoinedE o babies log s'.id i f x) := by
   have hu1 := (C02.prepare_uidInv o p p1 ex rs rs1 hnd hu st.prep).1
   have hlast : p1.lastSpecies = p.lastSpecies := (C02.prepare_spec o p p1 ex rs rs1 hnd st.prep).1
   have hheads := C10.reproduceAll_heads o gen _ _ _ _ _ _ _ _ _ _ st.repro
@@ -505,13 +510,18 @@ theorem nextEpoch_placed (o : EpochOpts W) (gen : Int) (p p' p1 p2 : Pop W) (ex 
     apply hu1.listed
     simp only [C02.orgUids, List.mem_flatMap, List.mem_map]
     exact ⟨s1, hs1, y, hy, rfl⟩
-  intro s' hs' x hx
+  intro s' hs'
   rw [st.fin] at hs'
   obtain ⟨j, s2, k, hj, hid, ho⟩ := finalize_shape p2 s' hs'
   rcases hstruct j s2 hj with ⟨s1, t, hs1, hid1, ho1, hjoin⟩ | ⟨hlen, f, t, hof, hfound, hjoin⟩
   · -- a species surviving from the old generation
+    left
     have hs1' : p1.species[j]? = some s1 := hs1
     have hs1m := List.mem_of_getElem? hs1'
+    obtain ⟨c, hc⟩ := hheads s1 hs1m
+    have hh : s2.orgs.head? = some c := by rw [ho1]; exact head?_append_of_head? _ hc
+    refine ⟨j, s1, c, hs1', by rw [hid, hid1], hc, by rw [← horg]; exact hold s1 hs1m c (mem_of_head?' hc), ?_⟩
+    intro x hx
     rw [ho] at hx
     obtain ⟨y, hy, e⟩ := C10.renumber_bwd _ _ x hx
     simp only [List.mem_filter, Bool.not_eq_true', List.contains_eq_mem, decide_eq_false_iff_not] at hy
@@ -520,14 +530,11 @@ theorem nextEpoch_placed (o : EpochOpts W) (gen : Int) (p p' p1 p2 : Pop W) (ex 
     rcases List.mem_append.mp hy1 with hyo | hyt
     · exact absurd (hold s1 hs1m y hyo) hy2
     · obtain ⟨q, hq, htar, sq, rep, hsq, hsqid, hrep, hhead, hlt⟩ := hjoin y hyt
-      obtain ⟨c, hc⟩ := hheads s1 hs1m
-      have hh : s2.orgs.head? = some c := by rw [ho1]; exact head?_append_of_head? _ hc
       rw [hh] at hhead
       cases hhead
-      refine ⟨q, y, hq, hbaby q y hq, e, Or.inr ⟨j, sq, rep, htar, hsq, by rw [hsqid, hid], hrep, hlt,
-        Or.inl ⟨s1, hs1', by rw [hid, hid1], hc, ?_⟩⟩⟩
-      rw [← horg]; exact hold s1 hs1m rep (mem_of_head?' hc)
+      exact ⟨q, y, hq, hbaby q y hq, e, htar, sq, hsq, by rw [hsqid, hid], hrep, hlt⟩
   · -- a species founded during this turnover
+    right
     obtain ⟨q0, hq0, htar0, hid0, hbase⟩ := hfound
     have hbase' : p1.lastSpecies ≤ q0.lastSpecies := hbase
     have hlen' : p1.species.length ≤ j := hlen
@@ -541,17 +548,56 @@ theorem nextEpoch_placed (o : EpochOpts W) (gen : Int) (p p' p1 p2 : Pop W) (ex 
     have ho' : s'.orgs = { f with genome := { f.genome with id := k } } ::
         renumber (t.filter (fun o => !p2.organisms.contains o.uid)) (k + 1) := by
       rw [ho]; rfl
-    rw [ho'] at hx
+    refine ⟨hidgt, j, f, _, _, hlen', ho', rfl, ⟨q0, hq0, hfb, htar0, by rw [hid, hid0]⟩, ?_⟩
+    intro x hx'
+    obtain ⟨y, hy, e⟩ := C10.renumber_bwd _ _ x hx'
+    have hyt := (List.mem_filter.mp hy).1
+    obtain ⟨q, hq, htar, sq, rep, hsq, hsqid, hrep, hhead, hlt⟩ := hjoin y hyt
+    rw [hof] at hhead
+    simp only [List.head?_cons, Option.some.injEq] at hhead
+    subst hhead
+    exact ⟨q, y, hq, hbaby q y hq, e, htar, sq, hsq, by rw [hsqid, hid], hrep, hlt⟩
+
+/-- how organism `x` of species `s'` of the new generation got there: it is baby `b` (genome id renumbered by the final
+    purge) with log entry `(q, b)`, and either
+    * FOUNDER: no species was chosen at `q`; `s'` carries the fresh id `q.lastSpecies + 1`, above the `LastSpecies` the
+      turnover started with, and `x` is still the first organism of `s'`; or
+    * JOINED: the search chose position `i` of `q.species`, holding the species with the id of `s'`, whose first organism
+      at that moment, `rep`, was within the threshold; and `rep` is
+        - an OLD-GENERATION organism: the first organism of the species at the same position `i` of the prepared
+          population `p1`, listed in `p1.organisms` (what `purgeOldGeneration` removes afterwards), or
+        - the FOUNDER baby of `s'` (a species founded during this turnover, beyond the old list), which is still the first
+          organism of `s'` (genome id renumbered). -/
+def PlacedInEpoch (o : EpochOpts W) (p p1 : Pop W) (babies : List (Org W)) (log : List (Pop W × Org W))
+    (s' : Species W) (x : Org W) : Prop :=
+  ∃ q b, (q, b) ∈ log ∧ b ∈ babies ∧ x = { b with genome := { b.genome with id := x.genome.id } } ∧
+    ((placeTarget o q b = none ∧ s'.id = q.lastSpecies + 1 ∧ p.lastSpecies < s'.id ∧ s'.orgs.head? = some x) ∨
+     (∃ i sq rep, placeTarget o q b = some i ∧ q.species[i]? = some sq ∧ sq.id = s'.id ∧ sq.orgs.head? = some rep ∧
+        lt (compatibility o.compat b.genome rep.genome) o.compatThreshold = true ∧
+        ((∃ s1, p1.species[i]? = some s1 ∧ s1.id = s'.id ∧ s1.orgs.head? = some rep ∧ rep.uid ∈ p1.organisms) ∨
+         (p.lastSpecies < s'.id ∧ rep ∈ babies ∧ p1.species.length ≤ i ∧
+           ∃ x0, s'.orgs.head? = some x0 ∧ x0 = { rep with genome := { rep.genome with id := x0.genome.id } }))))
+
+/-- **C08 over the epoch, (b), organism by organism.**  Under the hypotheses of `nextEpoch_species_placed`, EVERY organism
+    of EVERY species of the new population was placed as `PlacedInEpoch` says: founder of a species founded during this
+    turnover with a fresh id, or joined a species whose representative at that moment (an old-generation organism, or the
+    founder baby) was within the threshold. -/
+theorem nextEpoch_placed (o : EpochOpts W) (gen : Int) (p p' p1 p2 : Pop W) (ex : ExecState) (rs rs1 rs' : List Nat)
+    (babies : List (Org W)) (reg : Reg W) (uid : Nat) (log : List (Pop W × Org W))
+    (hu : C02.UidInv p) (hnd : (p.species.map (·.id)).Nodup)
+    (st : Stages o gen p rs p1 ex rs1 babies reg uid p2 log p' rs') :
+    ∀ s' ∈ p'.species, ∀ x ∈ s'.orgs, PlacedInEpoch o p p1 babies log s' x := by
+  intro s' hs' x hx
+  rcases nextEpoch_species_placed o gen p p' p1 p2 ex rs rs1 rs' babies reg uid log hu hnd st s' hs' with
+    ⟨i, s1, rep, h1, h2, h3, h4, hall⟩ | ⟨hgt, i, f, x0, t', hlen, ho, hx0, ⟨q0, hq0, hfb, htar0, hid0⟩, hall⟩
+  · obtain ⟨q, b, hq, hb, e, htar, sq, hsq, hsqid, hrep, hlt⟩ := hall x hx
+    exact ⟨q, b, hq, hb, e, Or.inr ⟨i, sq, rep, htar, hsq, hsqid, hrep, hlt, Or.inl ⟨s1, h1, h2, h3, h4⟩⟩⟩
+  · rw [ho] at hx
     rcases List.mem_cons.mp hx with rfl | hx'
-    · exact ⟨q0, f, hq0, hfb, rfl, Or.inl ⟨htar0, by rw [hid, hid0], hidgt, by rw [ho']; rfl⟩⟩
-    · obtain ⟨y, hy, e⟩ := C10.renumber_bwd _ _ x hx'
-      have hyt := (List.mem_filter.mp hy).1
-      obtain ⟨q, hq, htar, sq, rep, hsq, hsqid, hrep, hhead, hlt⟩ := hjoin y hyt
-      rw [hof] at hhead
-      simp only [List.head?_cons, Option.some.injEq] at hhead
-      subst hhead
-      exact ⟨q, y, hq, hbaby q y hq, e, Or.inr ⟨j, sq, f, htar, hsq, by rw [hsqid, hid], hrep, hlt,
-        Or.inr ⟨hidgt, hfb, hlen', _, by rw [ho']; rfl, rfl⟩⟩⟩
+    · exact ⟨q0, f, hq0, hfb, hx0, Or.inl ⟨htar0, hid0, hgt, by rw [ho]; rfl⟩⟩
+    · obtain ⟨q, b, hq, hb, e, htar, sq, hsq, hsqid, hrep, hlt⟩ := hall x hx'
+      exact ⟨q, b, hq, hb, e, Or.inr ⟨i, sq, f, htar, hsq, hsqid, hrep, hlt,
+        Or.inr ⟨hgt, hfb, hlen, x0, by rw [ho]; rfl, hx0⟩⟩⟩
 
 /-- **C08 over the epoch, (b) with the nearest-compatible rule.**  Over a strict weak order, with all distances met by the
     search below its sentinel: every organism `x` of the new generation is a baby `b` whose placement — at the species list
